@@ -14,7 +14,7 @@ class Check(PropertyCheck):
     case_type = "(N * list (N * option N) * list (N * option N))"
     shard = 300
     rule = ("protocol versions 4..14 x current NCP values per setting (below / equal / above the default, unreadable) x override sets "
-            "(new values for default and non-default settings, disabled settings, empty) x per-setting accept/reject answers; "
+            "(new values for default and non-default settings, disabled settings, empty) x per-setting accept/reject answers (every rejection status of the family); "
             "non-trivial = at least one override or one current value at/above a default; distinct by (version, overrides, current)")
     assumptions = ["override names are valid keys of the version's schema (others are rejected by voluptuous before write_config acts)"]
 
@@ -65,6 +65,17 @@ class Check(PropertyCheck):
                         cur[k] = rng.choice([None, 0, 3, 12, 250])
                 answers = {k: rng.choice([0, 0, 0, 1, 0x35]) for k in set(cur) | set(user)}
                 cases.append({"v": v, "user": user, "current": cur, "answers": answers})
+            # every rejection status (some could steer the library: out of memory, invalid id, ...): one setting rejected
+            # with it while the NCP reports smaller values for all defaults -- every other default is still written
+            sts = sorted({int(m) for m in t.EzspStatus} - {0})
+            if tier == "quick":
+                oom = int(t.EzspStatus.ERROR_OUT_OF_MEMORY)
+                sts = sorted(set([1, 0x30, 0x35, oom, 0xFF]) | set(rng.sample(sts, 6)))
+            names = list(defaults)
+            for code in sts:
+                for victim in (names[0], names[len(names) // 2], names[-1]):
+                    cases.append({"v": v, "user": {}, "current": {n: max(0, defaults[n].value - 1) for n in defaults},
+                                  "answers": {victim: code}})
             # the pre-identified corner: nothing overridden, every table larger than any default
             cases.append({"v": v, "user": {}, "current": {n: 250 for n in defaults}, "answers": {}})
         return cases
